@@ -572,8 +572,8 @@ const COMMON_PHYSICAL_UNITS: &[UnitTuple] = &[
 ];
 
 const CGS_UNITS: &[UnitTuple] = &[
-	("gal", "gals", "cm/s^2", "acceleration"),
-	("dyne", "dynes", "g*gal", "force"),
+	("Gal", "Gals", "cm/s^2", "acceleration"),
+	("dyne", "dynes", "g*cm/s^2", "force"),
 	("erg", "ergs", "g*cm^2/s^2", "work, energy"),
 	("barye", "baryes", "g/(cm*s^2)", "pressure"),
 	("poise", "poises", "g/(cm*s)", ""),
@@ -581,13 +581,13 @@ const CGS_UNITS: &[UnitTuple] = &[
 	("kayser", "kaysers", "cm^-1", ""),
 	("biot", "biots", "10 amperes", ""),
 	("emu", "emus", "0.001 A m^2", ""),
-	("franklin", "franklins", "dyn^1/2*cm", ""),
+	("franklin", "franklins", "dyn^(1/2)*cm", ""),
 	("gauss", "", "10^-4 tesla", ""),
 	("maxwell", "maxwells", "10^-8 weber", ""),
 	("phot", "phots", "10000 lux", ""),
 	("stilb", "stilbs", "10000 candela/m^2", ""),
 	// abbrevations
-	("gallileo", "gallileos", "gal", ""),
+	("gallileo", "gallileos", "Gal", ""),
 	("dyn", "dyns", "dyne", ""),
 	("Ba", "", "barye", ""),
 	("P", "", "poise", ""),
